@@ -403,6 +403,31 @@ def call_ext(it: Any, f: ExtV, args: List[Any], kwargs: Dict[str, Any], node: An
     if name == "inspect.signature" and args and isinstance(args[0], ExtV):
         sig = torchsig.SIGS.get(args[0].name, [])
         return Obj("inspect.Signature", attrs={"parameters": {n: Obj("inspect.Parameter", attrs={"name": n}, open_attrs=False) for n, _ in sig}}, open_attrs=False)
+    if name == "functools.partial" and args:
+        fn_, pre_a, pre_k = args[0], list(args[1:]), dict(kwargs)
+        return A._Builtin("partial", lambda it2, a, k, nd, fn_=fn_, pre_a=pre_a, pre_k=pre_k: it2.call_function(fn_, pre_a + list(a), {**pre_k, **k}, nd))
+    if name == "itertools.chain":
+        out_ = []
+        for a_ in args:
+            seq = it.concrete_iter(a_)
+            if seq is None:
+                raise A.Unsupported("chain over a non-concrete iterable")
+            out_ += seq
+        from .values import OneShot
+
+        return OneShot(out_)
+    if name in ("operator.getitem", "_operator.getitem") and len(args) == 2 and not isinstance(args[0], (TV, Obj)):
+        return it.getitem(args[0], args[1], node)
+    if name in ("operator.mul", "operator.add", "operator.sub", "operator.truediv", "_operator.mul", "_operator.add") and len(args) == 2 and not any(isinstance(a_, (TV, Obj)) for a_ in args):
+        import ast as _ast
+
+        op_ = {"mul": _ast.Mult(), "add": _ast.Add(), "sub": _ast.Sub(), "truediv": _ast.Div()}[short]
+        return it.binop(op_, args[0], args[1], node)
+    if name == "dataclasses.replace" and args and isinstance(args[0], Obj):
+        c = Obj(args[0].cls_name, cls=args[0].cls, open_attrs=args[0].open_attrs)
+        c.attrs.update(args[0].attrs)
+        c.attrs.update(kwargs)
+        return c
     if name == "collections.deque":
         seq = it.concrete_iter(args[0]) if args else []
         if seq is None:
